@@ -363,9 +363,29 @@ def corr_parser(ck):
     # the empty token list
     for strong in (False, True):
         bt.add(f'b_parse {cbool(strong)}', '[[]]', [()], [guarded(lambda: parser([], strong), sparsed)])
+    # atoms carrying two or three ring-closure digits closed in every order (too long for the exhaustive space): the neighbour-order table and the
+    # reserved slots decide which way a chirality mark is read
+    from chython.files.daylight.tokenize import smiles_tokenize
+    fam = []
+    for s in chiral_family(random.Random(f'{ck.seed}:c03parsefam'), 120 if ck.tier == 'quick' else 800):
+        try:
+            fam.append(smiles_tokenize(s))
+        except Exception:  # noqa
+            continue
+    for strong in (False, True):
+        items = []
+        for ts in fam:
+            e = guarded(lambda: parser(copy.deepcopy(ts), strong), sparsed)
+            items.append((ts, e))
+            ck.count(f'parser:' + (e if e.startswith('!') else 'Ok'))
+        bt.add_chunked(f'b_parse {cbool(strong)}', items, lambda ts: clist(ctoken(t) for t in ts), chunk=20)
+    for ts in fam:
+        ck.case(('parse', stokens(ts)), nontrivial=True)
     ck.extra['parser_token_sequences'] = n + 1
-    ok1 = bt.run(f'parser == Coq machine on all {n + 1} token sequences of length <= {L}, strong and non-strong',
-                 single=lambda seq: clist(f'nth {j} ta (0, PNone)' for j in seq))
+    ck.extra['parser_multi_closure_sequences'] = len(fam)
+    ok1 = bt.run(f'parser == Coq machine on all {n + 1} token sequences of length <= {L}, and on {len(fam)} tokenised texts with atoms carrying 2-3 ring-closure '
+                 f'digits closed in every order, strong and non-strong',
+                 single=lambda seq: clist(ctoken(t) for t in seq) if seq and isinstance(seq[0], tuple) else clist(f'nth {j} ta (0, PNone)' for j in seq))
     return ok1
 
 
@@ -683,7 +703,7 @@ def corr_reader(ck):
             else:
                 k0 = FLAG_SETS_H.index(flags)
                 step = 5 if ck.tier == 'quick' else 1
-                pool = hyd[k0 % step::step] + [(k, s) for k, s in inputs if '[' in s and k in ('generated', 'fixed', 'reaction', 'generated-cx')][: (120 if ck.tier == 'quick' else 1500)]
+                pool = hyd[k0 % step::step] + [(k, s) for k, s in inputs if '[' in s and k in ('generated', 'fixed', 'reaction', 'generated-cx')][: (120 if ck.tier == 'quick' else 800)]
             for kind, s in pool:
                 txt, exc = observe(hook, s, ignore, remap, keep_implicit=ki, ignore_aromatic_radicals=iar, ignore_carbon_radicals=icr)
                 if exc is not None and not isinstance(exc, ValueError):
@@ -1377,6 +1397,153 @@ def ez_family(rng, n):
     return out
 
 
+# chirality marks: the neighbour order an @ / @@ mark refers to is the order of writing - preceding atom, the atom's ring-closure DIGITS in the
+# order they stand on the atom (not the order in which the rings are closed later), then the branches. Two independent oracles, neither uses the
+# model or chython's writer:
+#  (a) the harness rewrites the text itself: exchanging two adjacent ring-closure digits on a marked atom and inverting the mark is the same
+#      molecule with the same atom numbering (all atom signs must be identical); inverting the mark alone is the enantiomer at that atom
+#      (RDKit's canonical isomeric SMILES must confirm both expectations before anything is reported);
+#  (b) RDKit reads the text and writes it again from other root atoms (its own traversal, ring numbering and marks); chython reads both texts and
+#      every labelled atom must have the same handedness with respect to the same neighbours (atoms matched through RDKit's output order)
+
+CHIRAL_RE = re.compile(r'\[([^\[\]@]*)(@@|@)([^\[\]@]*)\]((?:[-=#:/\\]?(?:%\d\d|\d)){2,})')
+UNIT_RE = re.compile(r'[-=#:/\\]?(?:%\d\d|\d)')
+
+
+def handedness(mol, n, env):
+    try:
+        return mol._translate_tetrahedron_sign(n, env)
+    except (KeyError, ValueError):
+        return None
+
+
+def atom_signs(mol):
+    """handedness of every labelled atom with respect to its neighbours in increasing atom number (the stored sign refers to an internal neighbour order)"""
+    return {n: None if a.stereo is None else handedness(mol, n, tuple(sorted(mol._bonds[n]))) for n, a in mol.atoms()}
+
+
+def chirality_oracle(ck, s):
+    """returns the number of comparisons made"""
+    from rdkit import Chem
+    from chython.containers import MoleculeContainer
+    if '@' not in s or '>' in s or ' ' in s:
+        return 0
+    mol, e = classify(s)
+    if e is not None and not isinstance(e, ValueError):
+        report_crash(ck, s, {}, e)
+    rd = Chem.MolFromSmiles(s)
+    if rd is None or not isinstance(mol, MoleculeContainer):
+        return 0
+    done = 0
+    can = Chem.MolToSmiles(rd)
+    base = atom_signs(mol)
+    # (a) rewriting by the harness
+    for m in list(CHIRAL_RE.finditer(s))[:4]:
+        units = UNIT_RE.findall(m.group(4))
+        flip = '@' if m.group(2) == '@@' else '@@'
+        for i in range(min(len(units) - 1, 3)):
+            if units[i] == units[i + 1]:
+                continue
+            sw = units[:i] + [units[i + 1], units[i]] + units[i + 2:]
+            same = s[:m.start()] + '[' + m.group(1) + flip + m.group(3) + ']' + ''.join(sw) + s[m.end():]
+            mirror = s[:m.start()] + '[' + m.group(1) + flip + m.group(3) + ']' + m.group(4) + s[m.end():]
+            r1, r2 = Chem.MolFromSmiles(same), Chem.MolFromSmiles(mirror)
+            m1, m2 = classify(same)[0], classify(mirror)[0]
+            if r1 is None or r2 is None or not isinstance(m1, MoleculeContainer) or not isinstance(m2, MoleculeContainer):
+                continue
+            done += 1
+            ck.case(('chiral-swap', s, m.start(), i), nontrivial=any(v is not None for v in base.values()))
+            ck.count('chirality:ring digits exchanged + mark inverted')
+            if Chem.MolToSmiles(r1) == can and atom_signs(m1) != base:
+                diff = sorted(n for n in base if base[n] != atom_signs(m1).get(n))
+                ck.counterexample(f'chirality-ring-digits:{s}', 'a chirality mark is not read against the order of the ring-closure digits on the atom: exchanging two '
+                                  'digits and inverting the mark (same molecule, same atom numbering) gives another handedness',
+                                  {'smiles': s, 'same_molecule': same}, {'atom signs': {n: base[n] for n in diff}, 'atom signs of the rewritten text': {n: atom_signs(m1).get(n) for n in diff}},
+                                  'identical atom signs', 'SMILES neighbour-order rule (harness rewriting), confirmed by RDKit: both texts have canonical SMILES ' + can,
+                                  replay_py=f"from chython import smiles\nfor t in ({s!r}, {same!r}):\n    m = smiles(t)\n    print(t, {{n: m._translate_tetrahedron_sign(n, tuple(sorted(m._bonds[n]))) for n, a in m.atoms() if a.stereo is not None and n in m.stereogenic_tetrahedrons}})")
+            if Chem.MolToSmiles(r2) != can and Chem.MolToSmiles(r2, isomericSmiles=False) == Chem.MolToSmiles(rd, isomericSmiles=False) \
+                    and any(v is not None for v in base.values()) and atom_signs(m2) == base:
+                ck.counterexample(f'chirality-mirror:{s}', 'inverting one chirality mark (an enantiomer / epimer according to RDKit) is read as the same molecule',
+                                  {'smiles': s, 'mirror': mirror}, 'identical atom signs', 'one atom sign inverted', 'RDKit canonical isomeric SMILES differ',
+                                  replay_py=f"from chython import smiles\nfor t in ({s!r}, {mirror!r}):\n    m = smiles(t)\n    print(t, {{n: m._translate_tetrahedron_sign(n, tuple(sorted(m._bonds[n]))) for n, a in m.atoms() if a.stereo is not None and n in m.stereogenic_tetrahedrons}})")
+    # (b) the same molecule as RDKit writes it from other roots
+    if rd.GetNumAtoms() != len(mol._atoms) or not any(v is not None for v in base.values()):
+        return done
+    nums = list(mol._atoms)
+    roots = sorted({-1, 0, rd.GetNumAtoms() - 1, rd.GetNumAtoms() // 2})
+    for root in roots:
+        try:
+            text = Chem.MolToSmiles(rd, rootedAtAtom=root) if root >= 0 else can
+            out = list(rd.GetPropsAsDict(True, True)['_smilesAtomOutputOrder'])
+        except Exception:  # noqa
+            continue
+        m2 = classify(text)[0]
+        if not isinstance(m2, MoleculeContainer) or len(m2._atoms) != len(nums) or len(out) != len(nums):
+            continue
+        nums2 = list(m2._atoms)
+        to2 = {nums[old]: nums2[new] for new, old in enumerate(out)}
+        if any(mol._atoms[n].atomic_number != m2._atoms[to2[n]].atomic_number for n in nums):
+            continue
+        wrong = []
+        for n, sg in base.items():
+            if sg is None:
+                continue
+            env = tuple(mol._bonds[n])
+            h1, h2 = handedness(mol, n, env), handedness(m2, to2[n], tuple(to2[x] for x in env))
+            if h1 is None or h2 is None or set(to2[x] for x in env) != set(m2._bonds[to2[n]]):
+                ck.count('chirality:rdkit rewriting, label on one side only')
+                continue
+            done += 1
+            ck.count('chirality:rdkit rewriting compared')
+            if h1 != h2:
+                wrong.append((n, list(env), h1, h2))
+        if wrong:
+            # centres that depend on each other through a symmetry (1,4-disubstituted cyclohexane, adamantane) may be inverted together by RDKit's writer:
+            # not a difference if inverting exactly these atoms is, for RDKit, the same molecule
+            rd2 = Chem.Mol(rd)
+            for n, *_ in wrong:
+                rd2.GetAtomWithIdx(nums.index(n)).InvertChirality()
+            if Chem.MolToSmiles(rd2) == can:
+                ck.count('chirality:rdkit rewriting, symmetric centres inverted together')
+                continue
+            n, env, h1, h2 = wrong[0]
+            ck.counterexample(f'chirality-rdkit:{s}', 'a chirality mark is read with another handedness than RDKit reads it (the same molecule written again by RDKit gives '
+                              'the opposite arrangement of the same neighbours)', {'smiles': s, 'rdkit_rewriting': text, 'atom': n, 'atom_in_rewriting': to2[n]},
+                              {'neighbours': env, 'handedness': h1}, {'neighbours': [to2[x] for x in env], 'handedness': h2},
+                              'RDKit MolFromSmiles + MolToSmiles (atoms matched by _smilesAtomOutputOrder)',
+                              replay_py=f"from chython import smiles\nfor t in ({s!r}, {text!r}):\n    m = smiles(t)\n    print(t, {{n: m._translate_tetrahedron_sign(n, tuple(sorted(m._bonds[n]))) for n, a in m.atoms() if a.stereo is not None and n in m.stereogenic_tetrahedrons}})")
+            break
+    ck.case(('chiral-rdkit', s), nontrivial=True)
+    return done
+
+
+def chiral_family(rng, n):
+    """marked atoms carrying two or three ring-closure digits whose rings are closed in every order (one and two digit numbers, bond symbols on the digits)"""
+    out = ['F[C@]12CCCC2OC1', 'F[C@]12CCCC1OC2', 'F[C@@]21CCCC2OC1', 'C[C@@]12CCC(=O)C2NC1', 'O[C@]%10%11CCCC%11OC%10', 'O[C@@]%11%10CCCC%11OC%10',
+           '[C@]12(F)CCCC2OC1', '[C@@]12(F)CCCC1OC2', 'C[C@H]1CC[C@@]12CCCN2', 'N[C@]123CCC1OC2SC3', 'N[C@]123CCC3OC2SC1', 'N[C@@]123CCC2OC3SC1',
+           'F[C@]1-2CCCC-2OC1', 'C[C@]12CC[C@H](O)CC1=CC[C@@H]1[C@@H]2CC[C@]2(C)C(=O)CC[C@@H]12', 'O=C1C[C@@]23CCCC[C@H]2CC[C@@H]1C3']
+    for _ in range(n):
+        x = rng.choice(['F', 'Cl', 'C', 'O', 'N', 'CC', 'Br', 'OC'])
+        mark = rng.choice(['@', '@@'])
+        a, b = rng.sample(['1', '2', '3', '%10', '%11', '9', '%12'], 2)
+        c1 = rng.choice(['CCC', 'CC', 'CCCC', 'CC(=O)', 'CNC', 'C=CC', 'CC(C)C'])
+        c2 = rng.choice(['OC', 'NC', 'SC', 'CO', 'C(C)C', 'OCC', 'C(=O)C', 'N(C)C'])
+        first, second = rng.choice([(a, b), (b, a)])
+        form = rng.randrange(4)
+        if form == 0:
+            out.append(f'{x}[C@@]{a}{b}{c1}C{first}{c2}{second}'.replace('@@', mark))
+        elif form == 1:
+            out.append(f'[C{mark}]{a}{b}({x}){c1}C{first}{c2}{second}')
+        elif form == 2:          # the ring opened before the atom and one opened on it
+            out.append(f'C{a}{c1}[C{mark}]{a}{b}({x}){c2}C{b}' if first == a else f'C{a}{c1}[C{mark}]{b}{a}({x}){c2}C{b}')
+        else:                    # three digits
+            c = rng.choice([d for d in ['4', '5', '%13'] if d not in (a, b)])
+            order = [a, b, c]
+            rng.shuffle(order)
+            out.append(f'{x}[C{mark}]{a}{b}{c}CC{c1}{order[0]}{c2}{order[1]}SC{order[2]}')
+    return out
+
+
 def directed_search(ck, seeds):
     """when a correspondence disagrees: the property-level oracles on and around the disagreeing texts"""
     rng = random.Random(f'{ck.seed}:c03directed')
@@ -1401,6 +1568,10 @@ def directed_search(ck, seeds):
                 bracket_oracle(ck, s, mol)
         if '/' in s or '\\' in s:
             rdkit_ez(ck, s.split()[0] if s.split() else s)
+        if '@' in s:
+            chirality_oracle(ck, s.split()[0] if s.split() else s)
+    for s in chiral_family(rng, 60):
+        chirality_oracle(ck, s)
     ck.extra['directed_search_texts'] = len(pool)
 
 
@@ -1470,6 +1641,13 @@ def search(ck):
     for s in corpus.sample([x for x in lip if '/' in x or '\\' in x], 60 if quick else 600, ck.seed, 'c03ez'):
         n_ez += rdkit_ez(ck, s)
     ck.extra['rdkit_ez_compared'] = n_ez
+    # (3b) chirality marks against the order of the ring-closure digits (harness rewriting + RDKit rewriting)
+    n_ch = 0
+    for s in chiral_family(rng, 150 if quick else 1200):
+        n_ch += chirality_oracle(ck, s)
+    for s in corpus.sample([x for x in lip if '@' in x], 120 if quick else 1127, ck.seed, 'c03chiral'):
+        n_ch += chirality_oracle(ck, s)
+    ck.extra['chirality_compared'] = n_ch
     # (4) reactions rebuilt from their molecules read alone; atom-number rules
     n_rx = 0
     fixed_rx = ['[CH4:1]>O[Na:2]>[CH4:1]', 'CC>[Na+:3].[OH-]>CC', '[CH3:1][OH:2]>[Na+:3].[OH-]>[CH3:1][OH:2]', '[CH3:1]Br>CC[O-:2].[Na+]>[CH3:1]O',
